@@ -16,6 +16,7 @@ import (
 
 	"github.com/prometheus/client_golang/prometheus"
 	"google.golang.org/protobuf/encoding/protodelim"
+	"google.golang.org/protobuf/proto"
 	"google.golang.org/protobuf/types/known/timestamppb"
 
 	"github.com/prometheus/alertmanager/nflog"
@@ -326,6 +327,26 @@ func runCase(t *testing.T, c *Case) (hist []string, violations []vh.Violation, t
 					var term string
 					if err == nil && len(es) == 1 {
 						cur[k] = es[0]
+						// What the pipeline does with a queried entry (DedupStage: nflog.NewStore(entry), then the
+						// integration reads and edits that Store): the edits belong to the Store until a successful
+						// notification is logged — the entry held by the log must not change through them.
+						if len(es[0].ReceiverData) > 0 {
+							before := proto.Clone(es[0]).(*pb.Entry)
+							st := nflog.NewStore(es[0])
+							for dk := range before.ReceiverData {
+								st.Delete(dk)
+							}
+							st.SetStr("zz-scratch", "x")
+							if again, err2 := l.Query(nflog.QGroupKey(g), nflog.QReceiver(r)); err2 == nil && len(again) == 1 {
+								if !proto.Equal(before, again[0]) {
+									violations = append(violations, vh.Violation{Key: "receiver-data-changed-through-query-result",
+										What: fmt.Sprintf("editing a Store built from the queried entry of %s / %s (Delete of its keys, nothing logged) changed the receiver data the log holds for that entry: %v -> %v", g, recvKey(r), before.ReceiverData, again[0].ReceiverData), Case: c})
+								}
+								es = again
+								cur[k] = es[0]
+							}
+							tags["store-edit-after-query"]++
+						}
 						// Query returns Entry only (no ExpiresAt): the model compares the entry with exp masked below
 						term = vh.App("RFoundE", coqEntryParts(string(es[0].GroupKey), es[0].Receiver, es[0].Timestamp.AsTime().UnixNano(), 0, es[0].FiringAlerts, es[0].ResolvedAlerts, es[0].ReceiverData))
 					} else if errors.Is(err, nflog.ErrNotFound) {
